@@ -1252,7 +1252,8 @@ pub (in crate::llir::lower) fn assign_registers(
     #[derive(Debug, Copy, Clone, PartialEq, Eq, Hash)]
     enum UsedName { RegId(RegId), DefId(DefId) }
     struct UsedNameData<'a> { span: Span, note: Option<&'a str> }
-    let mut clashing_names_for_regs = IdMap::<RegId, IdMap<UsedName, UsedNameData>>::new();
+    // (insertion-ordered, so that the warnings below come out in source order rather than hash order)
+    let mut clashing_names_for_regs = indexmap::IndexMap::<RegId, indexmap::IndexMap<UsedName, UsedNameData>>::new();
 
     let explicitly_used_regs = get_explicitly_used_regs(code);
 
